@@ -16,6 +16,7 @@ by the reference calculator pbt/refcalc_mix.py (Fractions, atom masses only).
 All three must agree.  API-only cases add float quantities, zero quantities, the
 keywords density=, natural_density=, name=, table= and formula-unit scaling.
 """
+from .. import subtable
 from decimal import Decimal
 from fractions import Fraction
 from math import log10
@@ -71,7 +72,7 @@ def env():
     if not _STATE:
         import periodictable
         from periodictable import core, mass, density
-        T = core.PeriodicTable("c11-private")
+        T = subtable.new("c11-private")
         mass.init(T)
         density.init(T)
         _STATE["tables"] = {"public": periodictable.elements, "private": T}
